@@ -6,7 +6,7 @@ META = dict(
     level_text=("TLC checks the byte-reader model (size, off) with its outcome invariants and that the closed forms equal the "
                 "transcribed bytes.Reader+io.ReadFull reference; a design-level model of dagreader.go (leaf buffer, walker "
                 "position, blind seek in a single node) is checked to refine it.  Every Read/Seek/WriteTo sequence of length 2 (+ length 3 on sizes 0..2, quick) "
-                "/ 3 (thorough) over sizes 0..6, buffers 0..6, offsets -size-2..size+2, 3 whences + invalid whence, plus "
+                "/ 3 on sizes 0..4 (thorough) over sizes 0..6, buffers 0..6, offsets -size-2..size+2, 3 whences + invalid whence, plus "
                 "simulated length-30 sequences, is replayed on real DagReaders over balanced/trickle DAGs with raw and dag-pb "
                 "leaves, chunk 1..3, width 2, and over DagModifier-produced DAGs, with Read, CtxReadFull and alternating APIs; "
                 "n, bytes, EOF, error and offset of every call are compared.  Random 30-op histories on files up to 2 MiB "
@@ -27,20 +27,22 @@ def run(ctx):
                        "(6 producers x raw/pb leaves x chunk 1..3) x 3 API variants.  T: random 30-op runs on large files. "
                        "non-trivial = behaviour with a successful seek followed by a read/WriteTo that delivers >= 1 byte")
     # M
-    ctx.tlc_mc("SeekReader", "SeekReader.tla", "MCSeekReader.cfg", timeout=600, coverage=not ctx.quick)
-    ctx.tlc_mc("SeekReader", "SeekReaderImpl.tla",
-               "MCSeekReaderImplQuick.cfg" if ctx.quick else "MCSeekReaderImpl.cfg", timeout=1200,
-               coverage=not ctx.quick)
+    # (VERIF_SKIP_M=1: skip the code-independent phase M -- only for mutation self-tests of the binding)
+    if not os.environ.get("VERIF_SKIP_M"):
+        ctx.tlc_mc("SeekReader", "SeekReader.tla", "MCSeekReader.cfg", timeout=600, coverage=not ctx.quick)
+        ctx.tlc_mc("SeekReader", "SeekReaderImpl.tla",
+                   "MCSeekReaderImplQuick.cfg" if ctx.quick else "MCSeekReaderImpl.cfg", timeout=1200,
+                   coverage=not ctx.quick)
     # G
     behs = ctx.tlc_gen("SeekReader", "GenSeekReader.tla",
                        "GenSeekReaderD2.cfg" if ctx.quick else "GenSeekReaderD3.cfg", timeout=3600,
                        workers=4 if ctx.quick else 8)
     if ctx.quick:   # depth 3 on a reduced alphabet (size 0..2, k 0..2): partial leaf read, seek, read again
         behs3 = ctx.tlc_gen("SeekReader", "GenSeekReader.tla", "GenSeekReaderD3s.cfg", timeout=2400, workers=4)
-    else:
-        behs3 = []
+    else:           # thorough: depth 3 for sizes 0..4 (behs) and depth 2 for sizes 0..6
+        behs3 = ctx.tlc_gen("SeekReader", "GenSeekReader.tla", "GenSeekReaderD2.cfg", timeout=2400, workers=8)
     sims = ctx.tlc_gen("SeekReader", "GenSeekReader.tla", "GenSeekReaderSim.cfg",
-                       simulate=12 if ctx.quick else 300, depth=31 * 10 + 1, timeout=900)
+                       simulate=12 if ctx.quick else 200, depth=31 * 10 + 1, timeout=900)
     binp = ctx.go_build("ipld/unixfs/mod", ["ipld/unixfs/mod/zz_verif_C09_test.go"])
 
     def seek_then_data(b):
